@@ -200,6 +200,17 @@ class C04(Check):
         if fk == "opbyte":
             if fault[1] == nom["ops"][idx]:
                 benign = True
+            elif (kind in ("adv-chunk", "adv-bchunk", "upd-chunk") and nom["lens"][idx] == 3
+                  and nom["ops"][idx] not in CHUNK_OPS.get(cmd, set())
+                  and fault[1] in SUCCESS_OPS.get(cmd, set())):
+                # the answer to the LAST chunk of a block or brother header turned into a well-formed
+                # report of total / partial success (bc_advance.c: the accumulated difficulty may
+                # reach the threshold at the end of any header, a brother's included): 0 / 1
+                want = 0 if (cmd == "updateAncestorBlock" or fault[1] == 0x06) else 1
+                if code != want:
+                    viol("device-success-not-reported", where + ":op%02x" % fault[1], {"reply": o.reply},
+                         {"errorcode": want})
+                return
             elif fault[1] in SUCCESS_OPS.get(cmd, set()) or cmd in ("getPubKey", "signerHeartbeat",
                                                                      "blockchainParameters", "uiHeartbeat"):
                 stats.dont_care += 1
